@@ -216,6 +216,18 @@ func (s *Solver) replayFrames() {
 }
 
 func (s *Solver) PopAll() {
+	defer func() {
+		if r := recover(); r != nil {
+			if _, ok := r.(engineFault); ok {
+				// the solver process is gone (killed by the watchdog after a
+				// time-out that it ignored): a fresh process has the empty
+				// stack PopAll is asked to produce
+				s.Restart()
+				return
+			}
+			panic(r)
+		}
+	}()
 	for s.depth > 0 {
 		s.Pop()
 	}
